@@ -31,6 +31,19 @@ def handle : List String → String
     let q := dayFrac (ratOps rn53) (ofFloat v1) (ofFloat v2) (ff.map ofFloat) (dd.map ofFloat)
     let agree := (ofFloat r.1 == q.1) && (ofFloat r.2 == q.2)
     s!"{hexOf r.1} {hexOf r.2} {if agree then 1 else 0}"
+  | ["eft", a, b] =>
+    -- the error-free-transformation contracts assumed by the theorems, checked on concrete operands:
+    -- hardware pairs, and exactness of the rational rn53 instance (x + y = a + b, x + y = a · b)
+    let x := parseHexFloat a
+    let y := parseHexFloat b
+    let sF := twoSum floatOps x y
+    let pF := twoProduct floatOps x y
+    let sQ := twoSum (ratOps rn53) (ofFloat x) (ofFloat y)
+    let pQ := twoProduct (ratOps rn53) (ofFloat x) (ofFloat y)
+    let sumExact := sQ.1 + sQ.2 == ofFloat x + ofFloat y
+    let prodExact := pQ.1 + pQ.2 == ofFloat x * ofFloat y
+    let agree := ofFloat sF.1 == sQ.1 && ofFloat sF.2 == sQ.2 && ofFloat pF.1 == pQ.1 && ofFloat pF.2 == pQ.2
+    s!"{hexOf sF.1} {hexOf sF.2} {hexOf pF.1} {hexOf pF.2} {if sumExact then 1 else 0} {if prodExact then 1 else 0} {if agree then 1 else 0}"
   | ["axis", op, pi, pv, fi, fv] =>
     match parseRat? pv, parseRat? fv with
     | some pv, some fv =>
